@@ -286,6 +286,28 @@ def tests_partner(cond, Y):
     return False
 
 
+def _contains(outer, inner):
+    from ..syn import walk_json
+    return any(x is inner for x in walk_json(outer))
+
+
+def root_positive_test(cond, Y):
+    """a condition that can only hold when the meta / trait at hand is Y"""
+    c = cond
+    while c['k'] == 'Paren':
+        c = c['expr']
+    t = es(c).replace(' ', '')
+    key = 'Trait::%s' % Y
+    if c['k'] == 'Binary' and c['op'] == '==' and (es(c['l_']).replace(' ', '') == key or es(c['r_']).replace(' ', '') == key):
+        return True
+    if c['k'] == 'Let' and pat_s(c['pat']).startswith('Some(') and c['expr']['k'] == 'MethodCall' and c['expr']['method'] in ('get', 'get_mut', 'remove') \
+            and len(c['expr']['args']) == 1 and es(c['expr']['args'][0]).replace(' ', '').lstrip('&') == key:
+        return True
+    if c['k'] == 'MethodCall' and c['method'] in ('contains', 'contains_key') and len(c['args']) == 1 and es(c['args'][0]).replace(' ', '').lstrip('&') == key:
+        return True
+    return False
+
+
 def check_cfg_same(cx, facts, rep):
     from ..parsers import _under
     for f in cx.crate.fns:
@@ -347,6 +369,35 @@ def check_cfg_same(cx, facts, rep):
                             rep.bad('CFG-SAME', f.qname, inst, 'cfg(feature = "%s") statement does not test whether %s is educed (`%s`): disabling the feature changes behaviour' % (Y, Y, es(ev.node['cond'])[:60]), f.file, ev.line)
                 else:
                     rep.bad('CFG-SAME', f.qname, inst, 'unrecognised cfg on a statement: %s' % [cfg_s(p) for p in preds], f.file, ev.line)
+    # the crate root (type-level registration and dispatch): a cfg(feature = "Y") statement must be dead when Y is off, i.e. an `if`
+    # without `else` whose condition can only hold for trait Y itself (`t == Trait::Y`, `map.get(&Trait::Y)` is Some, contains(&Trait::Y))
+    for f in cx.crate.fns:
+        if f.module.path != () and f.module.path != ('supported_traits',):
+            continue
+        fw = cx.fw(f)
+        for ev in fw.events:
+            cfgs = [c for c in ev.ctx if c['k'] == 'cfg']
+            if not cfgs or cfgs[-1] is not ev.ctx[-1]:
+                continue
+            preds = cfgs[-1].get('preds') or []
+            if ev.kind not in ('branch', 'let', 'assign', 'mcall', 'call', 'exit', 'match', 'for', 'loop', 'macro'):
+                continue
+            # only the outermost construct directly under the cfg
+            if ev.kind != 'branch':
+                if any(e2.kind == 'branch' and e2.ctx == ev.ctx and e2.seq <= ev.seq and e2.node is not ev.node and _contains(e2.node, ev.node) for e2 in fw.events):
+                    continue
+            inst = 'root-cfg@%s' % (es(ev.node['cond'])[:50] if ev.kind == 'branch' else ev.kind)
+            if len(preds) != 1 or preds[0][0] != 'feat':
+                if ev.kind == 'branch':
+                    rep.bad('CFG-SAME', f.qname, inst, 'unrecognised cfg on a statement of the crate root: %s' % [cfg_s(p_) for p_ in preds], f.file, ev.line)
+                continue
+            Y = preds[0][1]
+            if ev.kind == 'branch':
+                if root_positive_test(ev.node['cond'], Y) and ev.node.get('else') is None:
+                    rep.ok('CFG-SAME', '%s|%s' % (f.qname, inst))
+                else:
+                    rep.bad('CFG-SAME', f.qname, inst, 'cfg(feature = "%s") statement in the crate root is not an else-less `if` that can only hold for trait %s itself (`%s`): with the feature off the other traits are treated differently' % (
+                        Y, Y, es(ev.node['cond'])[:60]), f.file, ev.line)
     rep.floor('CFG-SAME', 20)
 
 
@@ -416,4 +467,8 @@ def run(cx, tier='quick'):
     rep.floor('FM', 90 if tier == 'quick' else 4000)
     rep.assumptions += ['rustc\'s verdict on educe\'s source is the definition of "builds"; cargo passes exactly --cfg feature="X" per enabled feature']
     rep.not_decided += ['behavioural equality of generated code across subsets beyond the CFG-SAME structural argument']
+    # "a disabled trait named in an attribute is refused like an unknown one" presupposes that every field's attributes reach a scanner
+    from .c13 import check_field_scan_coverage as _cover
+    from ..facts import Facts as _Fc
+    _cover(cx, _Fc(cx), rep)
     return rep
